@@ -333,6 +333,12 @@ void reb_simulation_remove_all_particles(struct reb_simulation* const r){
 	free(r->particles);
 	r->particles 	= NULL;
 	reb_tree_delete(r); // tree cells refer to particle indices
+	// Nothing is left that a deferred synchronization could act on.
+	r->ri_whfast.is_synchronized = 1;
+	r->ri_whfast512.is_synchronized = 1;
+	r->ri_saba.is_synchronized = 1;
+	r->ri_mercurius.is_synchronized = 1;
+	r->ri_eos.is_synchronized = 1;
 }
 
 int reb_simulation_remove_particle(struct reb_simulation* const r, int index, int keep_sorted){
